@@ -132,6 +132,43 @@ func init() {
 		"verifTime": func(fr *frame, args []value) value {
 			return timeVal{fr.m.input(args[0].(string), 64)}
 		},
+		"verifGuardedBy": func(fr *frame, args []value) value {
+			mu, _ := args[0].(*value)
+			if ia, ok := args[0].(iface); ok {
+				mu, _ = ia.v.(*value)
+			}
+			if mu == nil {
+				panic(pathAbort{"verifGuardedBy: nil mutex"})
+			}
+			name := args[1].(string)
+			for _, a := range variadic(args[2]) {
+				ptr, _ := a.(iface).v.(*value)
+				if ptr == nil {
+					continue
+				}
+				fr.m.guardRegister(mu, ptr, name)
+				if mo, ok := (*ptr).(*mapObj); ok && mo != nil {
+					fr.m.guardRegister(mu, mo, name)
+				}
+			}
+			return nil
+		},
+		"verifRWMutexFree": func(fr *frame, args []value) value {
+			p, _ := args[0].(*value)
+			locked, readers := fr.m.sched.heldBy(p)
+			return Bool(!locked && readers == 0)
+		},
+		"verifGuardOn":    func(fr *frame, args []value) value { fr.m.guardOn = true; return nil },
+		"verifGuardOff":   func(fr *frame, args []value) value { fr.m.guardOn = false; return nil },
+		"verifRaceStress": noop,
+		"verifClockModel": func(fr *frame, args []value) value {
+			fr.m.clockJitter = uint64(fr.m.asInt(args[0], "clock jitter"))
+			return nil
+		},
+		"verifAdvanceClock": func(fr *frame, args []value) value {
+			fr.m.clockAdvance(args[0].(*Term))
+			return nil
+		},
 		"verifTimeWindow": func(fr *frame, args []value) value {
 			fr.m.timeWinLo = uint64(fr.m.asInt(args[0], "time window"))
 			fr.m.timeWinHi = uint64(fr.m.asInt(args[1], "time window"))
